@@ -9,7 +9,8 @@ the C21 verdict is computed from the implementation's data:
      which the next storage event occurs must be in `W n`;
  (b) no resurrection probe may deliver;
  (c) a delete issued for a superseded client object must not remove an item the live session still holds;
- (d) after a PUBACK/PUBREC was written to a publisher, the in-flight records of that publish must be in `W n`.
+ (d) after a PUBACK/PUBREC was written to a publisher, the in-flight records of that publish must be in `W n`;
+ (e) after a SUBACK was written to a subscriber, the subscriptions it grants must be in `W n`.
 -/
 namespace Mochi.Driver.St
 open Mochi.Driver Mochi.Storage
@@ -153,7 +154,16 @@ def c21Items (st : SrState) (entries : List LogEntry) (live : List IdSets) (ws :
           ((diffIds (persistentOnly after after (diffIds after.i before.i)) w.i).filter fun id => !acked.any (fun e => (id.splitOn "~").headD "" == e.client)).map fun id =>
             ("F21d-ack-before-inflight-stored",
              s!"crash point {n}: the publisher already holds its PUBACK/PUBREC but the in-flight record {id} of that publish is not stored yet")
-        a ++ d
+        -- (e) a SUBACK of op k written before the next storage event: the subscriptions it grants are stored
+        let sacked := (entries.take pos.2).filter fun e => !e.isEvent && e.op == k && e.ptype == 9
+        let e5 := if sacked.isEmpty then [] else
+          ((diffIds (persistentOnly after after (diffIds after.s before.s)) w.s).filter fun id =>
+              sacked.any (fun e => (id.splitOn "~").headD "" == e.client)).map fun id =>
+            let parts := id.splitOn "~"
+            if collides st.touched (parts.headD "") ((parts.drop 1).headD "") then subItem n id else
+            ("F21e-suback-before-subscription-stored",
+             s!"crash point {n}: the client already holds the SUBACK but the subscription {id} it grants is not stored yet")
+        a ++ d ++ e5
   -- (b) resurrection probes
   let b := deliveries.map fun d =>
     match d.splitOn ":" with
